@@ -42,6 +42,8 @@ impl<'a> SocketWriteVectored<'a> {
 
             // clear the io_flag
             self.io_data.io_flag.store(0, Ordering::Relaxed);
+            #[cfg(may_verif)]
+            crate::verif::syscall();
 
             match self.socket.write_vectored(self.bufs) {
                 Ok(n) => return Ok(n),
